@@ -538,29 +538,53 @@ theorem mem_blocksL_sortLinks (l : List (String × UNode α)) (b : UNode α) : b
   simp only [mem_blocksL, mem_sortLinks]
 
 mutual
+theorem mem_mkdirs : ∀ (e : Entry β) (b : UNode (List β)), b ∈ mkdirs e → b = .dir []
+  | .file _, b, h => by simp [mkdirs] at h
+  | .symlink _, b, h => by simp [mkdirs] at h
+  | .dir es, b, h => by
+    simp only [mkdirs, List.mem_cons] at h
+    rcases h with h | h
+    · exact h
+    · exact mem_mkdirsL es b h
+theorem mem_mkdirsL : ∀ (es : List (String × Entry β)) (b : UNode (List β)), b ∈ mkdirsL es → b = .dir []
+  | [], b, h => by simp [mkdirsL] at h
+  | (n, e) :: rest, b, h => by
+    simp only [mkdirsL, List.mem_append] at h
+    rcases h with h | h
+    · exact mem_mkdirs e b h
+    · exact mem_mkdirsL rest b h
+end
+
+mutual
 theorem mem_emitEntry (p : Params) (hW : 2 ≤ p.width) :
-    ∀ (e : Entry β) (b : UNode (List β)), b ∈ emitEntry p e ↔ b ∈ (importEntry p e).blocks
+    ∀ (e : Entry β) (b : UNode (List β)), b ∈ emitEntry p e ↔ b ∈ (importEntry p e).blocks ∨ b ∈ mkdirs e
   | .file bs, b => by
-    simp only [emitEntry, importEntry, UNode.blocks, importFile_post p hW, List.mem_append, List.mem_map, List.mem_singleton]
+    simp only [emitEntry, importEntry, UNode.blocks, importFile_post p hW, List.mem_append, List.mem_map, List.mem_singleton,
+      mkdirs, List.not_mem_nil, or_false]
     constructor
     · rintro (h | rfl)
       · exact h
       · exact ⟨_, FNode.mem_post_self _, rfl⟩
     · exact Or.inl
-  | .symlink t, b => by simp [emitEntry, importEntry, UNode.blocks]
+  | .symlink t, b => by simp [emitEntry, importEntry, UNode.blocks, mkdirs]
   | .dir es, b => by
     simp only [emitEntry, importEntry, UNode.blocks, List.mem_append, List.mem_singleton, mem_blocksL_sortLinks,
-      mem_emitEntries p hW es b]
+      mem_emitEntries p hW es b, mkdirs, List.mem_cons]
+    tauto
 theorem mem_emitEntries (p : Params) (hW : 2 ≤ p.width) :
-    ∀ (es : List (String × Entry β)) (b : UNode (List β)), b ∈ emitEntries p es ↔ b ∈ blocksL (importEntries p es)
-  | [], b => by simp [emitEntries, importEntries, blocksL]
+    ∀ (es : List (String × Entry β)) (b : UNode (List β)),
+      b ∈ emitEntries p es ↔ b ∈ blocksL (importEntries p es) ∨ b ∈ mkdirsL es
+  | [], b => by simp [emitEntries, importEntries, blocksL, mkdirsL]
   | (n, e) :: rest, b => by
-    simp only [emitEntries, importEntries, blocksL, List.mem_append, mem_emitEntry p hW e b, mem_emitEntries p hW rest b]
+    simp only [emitEntries, importEntries, blocksL, mkdirsL, List.mem_append, mem_emitEntry p hW e b, mem_emitEntries p hW rest b]
+    tauto
 end
 
+/-- the stream, as a set: the blocks under the root, the scaffold of a lone file, and possibly the empty directory -/
 theorem emitStream_mem (nameOf : UNode (List β) → String) (p : Params) (hW : 2 ≤ p.width) (top : List (String × Entry β))
     (r : UNode (List β)) (hr : importRoot p top = some r) (b : UNode (List β)) :
-    b ∈ emitStream nameOf p top ↔ b ∈ r.blocks ∨ b ∈ scaffold nameOf r := by
+    (b ∈ emitStream nameOf p top → b ∈ r.blocks ∨ b ∈ scaffold nameOf r ∨ b = .dir []) ∧
+    (b ∈ r.blocks ∨ b ∈ scaffold nameOf r → b ∈ emitStream nameOf p top) := by
   unfold emitStream
   rw [hr]
   simp only
@@ -570,23 +594,61 @@ theorem emitStream_mem (nameOf : UNode (List β) → String) (p : Params) (hW : 
     simp only [hw, if_true, Option.some.injEq] at hr
     subst hr
     simp only [if_true, List.mem_append, List.mem_singleton, mem_emitEntries p hW, UNode.blocks, mem_blocksL_sortLinks]
-    tauto
+    constructor
+    · rintro ((((h | h) | h) | h) | h)
+      · exact Or.inl (Or.inl h)
+      · exact Or.inr (Or.inr (mem_mkdirsL _ b h))
+      · exact Or.inl (Or.inr h)
+      · exact Or.inr (Or.inl h)
+      · exact Or.inl (Or.inr h)
+    · rintro ((h | h) | h)
+      · exact Or.inl (Or.inl (Or.inl (Or.inl h)))
+      · exact Or.inr h
+      · exact Or.inl (Or.inr h)
   | false =>
     simp only [hw, Bool.false_eq_true, if_false] at hr
     rcases top with _ | ⟨⟨n, e⟩, _ | ⟨x, rest⟩⟩
     · simp at hr
     · simp only [Option.some.injEq] at hr
       subst hr
-      simp only [Bool.false_eq_true, if_false, List.mem_append, List.mem_singleton, mem_emitEntry p hW]
-      have := (importEntry p (visible p.hidden e)).mem_blocks_self
-      constructor
-      · rintro ((h | h) | rfl)
-        · exact Or.inl h
-        · exact Or.inr h
-        · exact Or.inl this
-      · rintro (h | h)
-        · exact Or.inl (Or.inl h)
-        · exact Or.inl (Or.inr h)
+      have hself := (importEntry p (visible p.hidden e)).mem_blocks_self
+      cases e with
+      | file bs =>
+        simp only [visible, Bool.false_eq_true, if_false, List.mem_append, List.mem_singleton, mem_emitEntry p hW, mkdirs,
+          List.not_mem_nil, or_false] at hself ⊢
+        constructor
+        · rintro ((h | h) | h)
+          · exact Or.inl h
+          · exact Or.inr (Or.inl h)
+          · exact Or.inl (h ▸ hself)
+        · rintro (h | h)
+          · exact Or.inl (Or.inl h)
+          · exact Or.inl (Or.inr h)
+      | symlink t =>
+        simp only [visible, Bool.false_eq_true, if_false, List.mem_append, List.mem_singleton, mem_emitEntry p hW, mkdirs,
+          List.not_mem_nil, or_false] at hself ⊢
+        constructor
+        · rintro ((h | h) | h)
+          · exact Or.inl h
+          · exact Or.inr (Or.inl h)
+          · exact Or.inl (h ▸ hself)
+        · rintro (h | h)
+          · exact Or.inl (Or.inl h)
+          · exact Or.inl (Or.inr h)
+      | dir es =>
+        simp only [visible, importEntry, UNode.blocks, Bool.false_eq_true, if_false, List.mem_append, List.mem_singleton,
+          mem_emitEntries p hW, mem_blocksL_sortLinks]
+        constructor
+        · rintro ((((h | h) | h) | h) | h)
+          · exact Or.inl (Or.inl h)
+          · exact Or.inr (Or.inr (mem_mkdirsL _ b h))
+          · exact Or.inl (Or.inr h)
+          · exact Or.inr (Or.inl h)
+          · exact Or.inl (Or.inr h)
+        · rintro ((h | h) | h)
+          · exact Or.inl (Or.inl (Or.inl (Or.inl h)))
+          · exact Or.inr h
+          · exact Or.inl (Or.inr h)
     · simp at hr
 
 /-! ### the DAG service cannot influence what is offered -/
